@@ -419,7 +419,7 @@ func pick[T any](r *rand.Rand, l []T) T { return l[r.Intn(len(l))] }
 var eNodePool = []string{"foo", "bar", "baz", "quux", "n1", "end1"}
 var eSymPool = []string{"aa", "bb", "cc", "dd"}
 var eSelPool = []string{"0", "1", "2", "3", "9", "00", "a", "x1", "11", "22"}
-var eLangCodes = []string{"nor", "no", "swa", "eng", "xx", "zzzz", "", "fra"}
+var eLangCodes = []string{"nor", "no", "swa", "eng", "xx", "zzzz", "", "fra", "swh", "cmn", "swh"}
 
 func (g *egen) sel() string {
 	if g.r.Intn(8) == 0 {
@@ -707,7 +707,7 @@ func genApp(r *rand.Rand) genOut {
 		}
 		a.Tpl = append(a.Tpl, kv{n, t})
 		if r.Intn(4) == 0 {
-			a.Tpl = append(a.Tpl, kv{n + "_" + pick(r, []string{"nor", "swa", "fra"}), "tr:" + t})
+			a.Tpl = append(a.Tpl, kv{n + "_" + pick(r, []string{"nor", "swa", "fra", "swh"}), "tr:" + t})
 		}
 		desc = append(desc, n+": "+strings.Join(src, "; "))
 	}
@@ -770,7 +770,7 @@ func genHistory(r *rand.Rand, sels []string, n int) [][]byte {
 		case k < 90:
 			in = pick(r, []string{"zz", "q", "+1", "7 7", "abc'def"})
 		case k < 97:
-			in = pick(r, []string{"!bad", " 1", "-", "\x00", "\n1", "é"})
+			in = pick(r, []string{"!bad", " 1", "-", "\x00", "\n1", "é", "1\n", "1\n2", "+254\n1", "a\nb"})
 		default:
 			in = strings.Repeat("1", 256+r.Intn(45))
 		}
@@ -859,6 +859,8 @@ var engineCorpus = []corpusCase{
 		fn: map[string][]eFres{"aa": []eFres{{Content: "v", Set: []uint32{8}}}}, cfg: eCfg{FlagCount: 2}, inputs: []string{"", "1", "1", "0", "1"}},
 	{name: "lang-empty", nodes: [][3]string{{"root", "LOAD lang1 0; HALT; INCMP foo 1", "root"}, {"foo", "RELOAD lang1; HALT; INCMP _ 0", "foo"}, {"_catch", "HALT; INCMP _ *", "catch"}},
 		tplx: []kv{{"root_nor", "rot"}, {"foo_nor", "fu"}}, fn: map[string][]eFres{"lang1": []eFres{{Content: "nor", Set: []uint32{7}}, {Content: "", Set: []uint32{7}}, {Content: "xx", Set: []uint32{7}}}}, cfg: eCfg{FlagCount: 1}, inputs: []string{"", "1", "0", "1", "0"}},
+	{name: "lang-part3-only", nodes: [][3]string{{"root", "LOAD lang1 0; MOUT lbl1 1; HALT; INCMP foo 1", "hello"}, {"foo", "HALT; INCMP _ 0", "foo"}, {"_catch", "HALT; INCMP _ *", "catch"}},
+		tplx: []kv{{"root_swh", "habari"}, {"foo_swh", "fuu"}}, menu: []kv{{"lbl1_menu_swh", "rudi"}}, fn: map[string][]eFres{"lang1": []eFres{{Content: "swh", Set: []uint32{7}}}}, cfg: eCfg{FlagCount: 1}, inputs: []string{"", "1", "0"}},
 	{name: "first-terminate", nodes: [][3]string{{"root", "HALT; INCMP foo 1", "root"}, {"foo", "HALT; INCMP _ 0", "foo"}, {"_catch", "HALT; INCMP _ *", "catch"}},
 		cfg: eCfg{FlagCount: 1, First: []eFres{{Content: "hello"}, {Content: "blocked", Set: []uint32{6}}, {Content: "again"}}}, inputs: []string{"", "1", "0", "!bad", "1"}},
 	{name: "first-long-exit", nodes: [][3]string{{"root", "HALT; INCMP foo 1", "root"}, {"foo", "HALT; INCMP _ 0", "foo"}, {"_catch", "HALT; INCMP _ *", "catch"}},
